@@ -87,7 +87,7 @@ func propC11(e *Env) {
 	if ex == nil {
 		return
 	}
-	r := newRtRigStore(e, dir, store)
+	r := newRtRigStore(e, dir, store, swarmRtOpts(e)...)
 	if !r.quiesce() || !r.started || r.err != nil {
 		e.Broken("runtime.New: %v", r.err)
 		return
